@@ -815,6 +815,23 @@ def presentation_edit_battery(run):
         run.count("traces_validated_against_impl")
         if got != ref:
             run.failure("presentation/symbol_text", f"annotation <{sym}> on a register-free first line changes the result: {got[:120]!r} vs {ref[:120]!r}", {"kind": "lx_edit", "edit": "symbol " + sym})
+    # labels with nested template arguments (objdump -C): a label line is never an instruction
+    lab = sym_listing(None).replace("0000000000001189 <main>:", "0000000000001189 <std::vector<int, std::allocator<int> >::size() const>:\n0000000000001189 <a> b>:")
+    try:
+        got = jasmapi.file_route_stream(lab)
+    except Exception as e:
+        got = f"{type(e).__name__}: {e}"
+    run.count("traces_validated_against_impl")
+    if got != ref:
+        run.failure("presentation/label_text", f"labels with nested template arguments change the result: {got[:160]!r} vs {ref[:160]!r}", {"kind": "lx_edit", "edit": "label text"})
+    # an object file's function at address 0, with and without indentation
+    zero = ["0000000000000000 <f>:"] + [f"{ind}{a}:\t{b:<21}\t{t}" for ind in ("   ",) for a, b, t in (("0", "55", "push   %rbp"), ("1", "48 89 e5", "mov    %rsp,%rbp"), ("4", "c3", "ret"))]
+    zref = jasmapi.file_route_stream("\n".join(zero) + "\n")
+    for ind in ("", " ", "        "):
+        got = jasmapi.file_route_stream("\n".join([zero[0]] + [ind + l.lstrip(" ") for l in zero[1:]]) + "\n")
+        run.count("traces_validated_against_impl")
+        if got != zref or zref != "0::push,%rbp,|1::mov,%rsp,%rbp,|4::ret,,|":
+            run.failure("presentation/indentation_at_address_0", f"function at address 0 with indentation {ind!r}: {got!r}, expected '0::push,%rbp,|1::mov,%rsp,%rbp,|4::ret,,|'", {"kind": "lx_edit", "edit": "indentation at address 0"})
     for k in (15, 30, 60):
         try:
             got = jasmapi.file_route_stream(sym_listing("helper", preamble=k))
